@@ -23,6 +23,10 @@ from collections import Counter
 from vf.common import PY, REPO, VERIF, ensure_deps, h64, jdump
 
 
+# mutation runs (tools/seed_eval.py) write their evidence and replays elsewhere
+OUT = os.environ.get("VERIF_OUT", VERIF)
+
+
 def load_known():
     p = os.path.join(VERIF, "known_findings.json")
     if not os.path.exists(p):
@@ -156,7 +160,7 @@ def run_check(prop, tier, seed, replay=None):
         lines.append(f"KNOWN-FINDING: property={prop} {known_mechs[mech]['what']} [mechanism={mech}; witnessed {n}x this run]")
     replay_paths = []
     if new_viol:
-        rdir = os.path.join(VERIF, "replays", prop)
+        rdir = os.path.join(OUT, "replays", prop)
         os.makedirs(rdir, exist_ok=True)
         seenm = Counter()
         for v in new_viol:
@@ -227,8 +231,8 @@ def write_evidence(prop, tier, seed, mod, m, wall, nviol, known_hit):
         "wall_s": round(wall, 2),
         "violations": int(nviol),
     }
-    os.makedirs(os.path.join(VERIF, "evidence"), exist_ok=True)
-    jdump(ev, os.path.join(VERIF, "evidence", f"{prop}.json"), indent=1)
+    os.makedirs(os.path.join(OUT, "evidence"), exist_ok=True)
+    jdump(ev, os.path.join(OUT, "evidence", f"{prop}.json"), indent=1)
 
 
 def main():
